@@ -510,6 +510,8 @@ class C19(Prop):
             mk("tsan-" + name, ["#tsan"] + lines)
         # repaired: heart_beat_flag raced between the timer thread and the backend (real callback vs real call_heart_beat)
         mk("tsan-heart-beat-flag", ["#tsan-hb", "hbrace 60"])
+        # the real callback run INSIDE the real call_heart_beat (interposed time()): the tick must still be owed
+        mk("heart-beat-tick-in-round", ["#tsan-hb", "hbowed", "hbowed"])
         # repaired: async_queue_clear left a writer blocked on the full queue asleep (nothing ever set not_full again)
         mk("queue-clear-blocked-writer", ["qnew 1 8 2", "enq 1 1 8", "enq 2 7 8", "qclear", "qstat", "deq 8", "deq 8", "qstat"])
         mk("queue-clear-blocked-writer-cap2", ["qnew 2 8 2", "enq 1 1 8", "enq 1 2 8", "enq 2 1 8", "qclear", "qstat", "enq 1 3 8",
